@@ -10,3 +10,14 @@ package experiments
 // Taskfile's and the task's own env for that name.
 //@ func readDotEnv
 //@   site os.Setenv#0 requires strHasPrefix(arg0, "TASK_X_")                                                   [C10]
+
+// ---- C10: switching an experiment on (ENV_PRECEDENCE decides whether the Taskfile env beats the process
+// environment). A value of 0 in the config file means "not set here": the TASK_X_ variable (environment or .env)
+// is consulted whenever the config does not switch the experiment on, so it can always be enabled from outside
+//@ ghost var xEnvAsked bool scratch
+//@ func New
+//@   init xEnvAsked := false
+//@   site getEnv#0 requires arg0 == xName                                                                [C10]
+//@   site getEnv#1 ghost xEnvAsked := true
+//@   ensures result.Value == 0 ==> xEnvAsked                                                             [C10]
+
